@@ -187,6 +187,9 @@ def _apply_fpy_decorator(
     # get defining environment
     cvars = inspect.getclosurevars(func)
     cfree_vars = cvars.nonlocals.keys() | cvars.globals.keys() | cvars.builtins.keys()
+    # `getclosurevars` also reports attribute names (the `round` of
+    # `fp.round`): a name the function assigns is a local of it, never captured
+    cfree_vars = cfree_vars - set(func.__code__.co_varnames)
     env = _function_env(func)
 
     # set of free variables as `NamedId`
